@@ -158,7 +158,7 @@ def observe_aux(ctx, exe, lines):
     res = []
     for l, a in zip(lines, out):
         a = a.strip()
-        need = l.split()[0] == "tour" or l.split()[1] in ("moead", "rvea")
+        need = l.split()[0] == "tour" or l.split()[1] in ("moead", "rvea", "nsga3")
         res.append(l + " aux " + a if (a or need) else l)
     return res
 
@@ -307,6 +307,8 @@ def run(ctx):
     ctx.cov["distinct_nontrivial"] = len(set(sel_lines)) + len(set(opt_lines)) + len(set(gen_lines))
     ctx.sample({"upd_op": gen_lines[-1][:300]})
     ctx.sample({"sel_op": sel_lines[len(sel_lines) // 2][:160]}); ctx.sample({"opt_op": opt_lines[-1]})
+    sel_lines = observe_aux(ctx, sel_exe, [l.split(" aux")[0] for l in sel_lines])      # NSGA-III association step observed
+    ctx.count("sel_nsga3_association_outside_model", sum(1 for l in sel_lines if l.endswith(" aux nan") or (l.split()[1] == "nsga3" and l.endswith(" aux "))))
     C13.correspond_lines(ctx, "K-C14[selection]", sel_lines, [sel_exe], [drv], classify=classify, shrink=shrink)
     C13.correspond_lines(ctx, "K-C14[generation]", gen_lines, [gen_exe], [drv], classify=classify, shrink=shrink)
     C13.correspond_lines(ctx, "K-C14[optimizers]", opt_lines, [opt_exe], [drv], classify=classify, shrink=shrink, timeout=1500)
